@@ -323,7 +323,16 @@ func (c *Ctx) c10Scripts() error {
 					want = append(want, "no 0")
 				}
 			case op < 90: // range without mutation: order-independent digest
-				fmt.Fprintf(&sb, "if true { n := 0; s := 0; for _, v := range m { n++; s += v }; println(\"sum\", n, s) }\n")
+				switch r.Intn(3) { // the loop variables may be named like the map they range over (valid Go: the range expression is evaluated first)
+				case 0:
+					fmt.Fprintf(&sb, "if true { n := 0; s := 0; for _, v := range m { n++; s += v }; println(\"sum\", n, s) }\n")
+				case 1:
+					fmt.Fprintf(&sb, "if true { n := 0; s := 0; for _, m := range m { n++; s += m }; println(\"sum\", n, s) }\n")
+					c.Rep.Count("range-variable-named-like-the-map")
+				default:
+					fmt.Fprintf(&sb, "if true { n := 0; s := 0; for m, v := range m { _ = m; n++; s += v }; println(\"sum\", n, s) }\n")
+					c.Rep.Count("range-variable-named-like-the-map")
+				}
 				s := 0
 				for _, v := range native {
 					s += v
